@@ -46,6 +46,19 @@ def run(ctx):
     for e in run_campaign(ctx, items):
         for fn in (oracles.c13, oracles.c03, oracles.c07):
             fn(ctx, e)
+    # checkpoint calls that take minutes (client retries, a call queued behind another): a continue decision / the final state is
+    # only acted upon once its record has been ACCEPTED, however long that takes
+    from checks.durable_common import CURATED
+    slow_items = []
+    for prog in (CURATED["s12_wfc_three_polls"], {"nodes": [{"k": "wfc", "polls": 2}, {"k": "step"}]},
+                 {"nodes": [{"k": "child", "body": [{"k": "wfc", "polls": 2, "fail_at": 2, "caught": True}]}]}):
+        for lat in ((75.0,) if ctx.quick else (20.0, 75.0, 400.0)):
+            for k in range(2 if ctx.quick else 4):
+                slow_items.append((prog, {"seed": 71 + k, "api_latency": lat, "hang_after": 6 * lat + 100, "max_inv": 14,
+                                          "strategy": "pct" if k % 2 else "random"}))
+    for e in run_campaign(ctx, slow_items):
+        for fn in (oracles.c13, oracles.c03, oracles.c07):
+            fn(ctx, e)
     # a completed condition whose stored final state can no longer be restored: whatever the SDK does about the payload, the condition
     # is not polled again and no new record is sent for it
     wfc_then = {"nodes": [{"k": "wfc", "polls": 2, "caught": True}, {"k": "wait"}, {"k": "step"}, {"k": "wait"}]}
